@@ -6,6 +6,7 @@ import StamModel.Driver.Txt
 import StamModel.Driver.St
 import StamModel.Driver.Tv
 import StamModel.Driver.Tp
+import StamModel.Driver.Ql
 /-
   Line-protocol driver: one request per line on stdin, one answer per line on stdout.
   Built as the `stamdriver` executable (core Lean only).
@@ -23,6 +24,7 @@ def step (line : String) : String :=
   | "dv" :: args => dv args
   | "tv" :: args => tv args
   | "tp" :: args => tp args
+  | "ql" :: args => ql args
   | ["reset"] => "ok"
   | _ => "bad-op"
 
